@@ -238,6 +238,23 @@ impl B {
         self.log.lock().unwrap().push(LogEntry { iface: "org.sim.B", member: "WorkMut", args: format!("{id}"), t_start: t, t_end: self.w.now(), instance: self.instance });
         id
     }
+
+    /// A property whose `&mut self` setter takes a while: a writer on this interface's lock that does not come
+    /// from the (serialized) method dispatch but from the Properties interface.
+    #[zbus(property)]
+    fn slow(&self) -> u32 {
+        0
+    }
+    #[zbus(property)]
+    async fn set_slow(&mut self, us: u32) {
+        let t = self.w.now();
+        match us {
+            0 => {}
+            1 => self.w.yield_now().await,
+            n => self.w.sleep_ns(n as u64 * 1000).await,
+        }
+        self.log.lock().unwrap().push(LogEntry { iface: "org.sim.B.prop", member: "SetSlow", args: format!("{us}"), t_start: t, t_end: self.w.now(), instance: self.instance });
+    }
 }
 
 /// Interface C: an empty marker interface (for registration histories).
